@@ -4,9 +4,13 @@ package gen
 import (
 	"math/big"
 	"math/rand"
+	"os"
 
 	"github.com/consensys/gnark/logger"
+	"github.com/rs/zerolog"
+
 	"strings"
+	"worldcoin/gnark-mbu/logging"
 )
 
 var BN254 = func() *big.Int {
@@ -16,7 +20,16 @@ var BN254 = func() *big.Int {
 
 type G struct{ R *rand.Rand }
 
-func init() { logger.Disable() }
+// Out is the protocol stream (the process's original stdout).  gnark prints diagnostics such as
+// "ignoring uninitialized slice" with fmt.Printf; os.Stdout is pointed at stderr so that they
+// cannot interleave with protocol lines.
+var Out = os.Stdout
+
+func init() {
+	logger.Disable()
+	*logging.Logger() = zerolog.Nop()
+	os.Stdout = os.Stderr
+}
 
 func New(seed int64) *G { return &G{R: rand.New(rand.NewSource(seed))} }
 
